@@ -133,6 +133,10 @@ pub struct Ctx {
     pub seed: u64,
     pub level: &'static str,
     pub replay_mode: bool,
+    /// write the evidence to this path instead of /verif/evidence/<id>.json (side summaries of the tokio twin)
+    pub evidence_path: Option<String>,
+    /// prefix for replay file names
+    pub replay_tag: &'static str,
     start: Instant,
     inner: Mutex<Inner>,
     known: Known,
@@ -156,6 +160,8 @@ impl Ctx {
             seed,
             level,
             replay_mode: false,
+            evidence_path: None,
+            replay_tag: "",
             start: Instant::now(),
             inner: Mutex::new(Inner {
                 all_exhaustive: false,
@@ -305,7 +311,7 @@ impl Ctx {
             let h = hash_of(&text);
             let dir = format!("{}/replay", VERIF_DIR);
             let _ = std::fs::create_dir_all(&dir);
-            let path = format!("{}/{}-{:016x}.json", dir, self.id, h);
+            let path = format!("{}/{}-{}{:016x}.json", dir, self.id, self.replay_tag, h);
             let _ = std::fs::write(&path, text);
             path
         };
@@ -315,6 +321,40 @@ impl Ctx {
             return;
         }
         g.violations.push((f, path));
+    }
+
+    /// Merge the summary written by a sibling runner (the tokio twin) into this run's accounting.
+    pub fn merge_side(&self, path: &str, prefix: &str) -> Option<i64> {
+        let text = std::fs::read_to_string(path).ok()?;
+        let v: J = serde_json::from_str(&text).ok()?;
+        let cov = &v["coverage"];
+        let mut g = self.inner.lock().unwrap();
+        g.evaluations += cov["evaluations"].as_u64().unwrap_or(0);
+        g.nontrivial_enum += cov["distinct_nontrivial"].as_u64().unwrap_or(0);
+        if let Some(l) = cov["labels"].as_object() {
+            for (k, n) in l {
+                *g.labels.entry(format!("{}{}", prefix, k)).or_insert(0) += n.as_u64().unwrap_or(0);
+            }
+        }
+        if let Some(sm) = cov["samples"].as_array() {
+            for x in sm.iter().take(3) {
+                g.samples.push(json!({"class": format!("{}{}", prefix, x["class"].as_str().unwrap_or("")), "case": x["case"].clone()}));
+            }
+        }
+        if let Some(r) = cov["rule"].as_str() {
+            g.rules.push(format!("[{}] {}", prefix.trim_end_matches(':'), r));
+        }
+        if let Some(a) = v["assumptions"].as_array() {
+            for x in a {
+                if let Some(t) = x.as_str() {
+                    g.assumptions.push(format!("[{}] {}", prefix.trim_end_matches(':'), t));
+                }
+            }
+        }
+        let viol = v["violations"].as_i64().unwrap_or(0);
+        g.extra.insert(format!("{}violations", prefix), json!(viol));
+        g.extra.insert(format!("{}wall_s", prefix), v["wall_s"].clone());
+        Some(viol)
     }
 
     pub fn n_violations(&self) -> usize {
@@ -373,7 +413,7 @@ impl Ctx {
         if !self.replay_mode {
             let dir = format!("{}/evidence", VERIF_DIR);
             let _ = std::fs::create_dir_all(&dir);
-            let path = format!("{}/{}.json", dir, self.id);
+            let path = self.evidence_path.clone().unwrap_or_else(|| format!("{}/{}.json", dir, self.id));
             if let Err(e) = std::fs::write(&path, serde_json::to_string_pretty(&ev).unwrap() + "\n")
             {
                 eprintln!("cannot write evidence {}: {}", path, e);
